@@ -456,6 +456,43 @@ func (x *Explorer) Concretise(t *Term, site uint32) uint64 {
 	return v0
 }
 
+// EnumRange forks a fresh variable over the concrete range [lo,hi] without solver
+// queries (the variable occurs in no other constraint yet, so every value is feasible).
+func (x *Explorer) EnumRange(t *Term, lo, hi int64, site uint32) int64 {
+	if lo > hi {
+		panic(pathEnd{"assume-false"})
+	}
+	if lo == hi {
+		x.assertPC(Cmp(OpEq, t, BV(uint64(lo), t.W)))
+		x.ev.M[t.Name] = uint64(lo)
+		x.ev = NewEvaluator(x.ev.M)
+		return lo
+	}
+	x.St.Decisions++
+	if x.cursor < len(x.prefix) {
+		d := x.prefix[x.cursor]
+		if d.Site != site {
+			panic(engineError{fmt.Sprintf("replay divergence (range) at decision %d: site %d vs %d", x.cursor, site, d.Site)})
+		}
+		x.cursor++
+		x.trail = append(x.trail, d)
+		x.assertPC(Cmp(OpEq, t, BV(uint64(d.V), t.W)))
+		return d.V
+	}
+	for v := hi; v > lo; v-- {
+		m2 := copyModel(x.ev.M)
+		m2[t.Name] = uint64(v)
+		x.pushItem(v, site, m2)
+	}
+	x.St.FastForks++
+	x.cursor++
+	x.trail = append(x.trail, Dec{lo, site})
+	x.assertPC(Cmp(OpEq, t, BV(uint64(lo), t.W)))
+	x.ev.M[t.Name] = uint64(lo)
+	x.ev = NewEvaluator(x.ev.M)
+	return lo
+}
+
 // KWay chooses among mutually exclusive, jointly exhaustive conditions.
 func (x *Explorer) KWay(conds []*Term, site uint32) int {
 	live := 0
